@@ -207,6 +207,7 @@ def typed_pack(entries, thin_base=None):
 
 
 _ART = {}
+_SIBLING = {}       # name -> a pack of the same layout with other contents (not itself enumerated for damage)
 
 
 def artefacts():
@@ -224,6 +225,9 @@ def artefacts():
     # pack "blobs": full, ofs-delta on it, ref-delta on the first (both delta kinds)
     data, info = typed_pack([(OBJ_BLOB, b1), ("ofs", 0, b2), ("ref", 0, b3)])
     A["pack.blobs"] = {"kind": "pack", "data": data, "info": info}
+    # a different pack of the same layout (spliced under pack.blobs' index: same offsets, other contents)
+    sdata, sinfo = typed_pack([(OBJ_BLOB, b"omega\n" * 6), ("ofs", 0, b"omega\n" * 6 + b"beta\n"), ("ref", 0, b"omega\n" * 5 + b"gamma\n")])
+    _SIBLING["pack.blobs"] = {"kind": "pack", "data": sdata, "info": sinfo}
     # pack "commit": blob, tree, commit, tag (object grammar after a mutation is exercised too)
     blob = b"file content\n"
     tree = b"100644 f\0" + oid(OBJ_BLOB, blob)
@@ -515,3 +519,35 @@ def idx_names(d: bytes):
         return [d[base + 20 * i:base + 20 * i + 20].hex() for i in range(n)]
     n = struct.unpack(">L", d[1020:1024])[0]
     return [d[1024 + 24 * i + 4:1024 + 24 * i + 24].hex() for i in range(n)]
+
+
+def sibling_pack(name):
+    artefacts()
+    return _SIBLING[name]
+
+
+def midx_redirect(data: bytes, i: int, j: int) -> bytes:
+    """crafted multi-pack-index: the recorded pack offset of object i (in oid order) is replaced by that of object j
+    (it now points at the start of ANOTHER object of the same pack); trailing checksum recomputed."""
+    nchunks = data[6]
+    ooff = None
+    for c in range(nchunks):
+        e = 12 + 12 * c
+        if data[e:e + 4] == b"OOFF":
+            ooff = struct.unpack(">Q", data[e + 4:e + 12])[0]
+    if ooff is None:
+        raise ValueError("no OOFF chunk")
+    b = bytearray(data)
+    b[ooff + 8 * i + 4:ooff + 8 * i + 8] = data[ooff + 8 * j + 4:ooff + 8 * j + 8]
+    b[-20:] = hashlib.sha1(bytes(b[:-20])).digest()
+    return bytes(b)
+
+
+def midx_object_count(data: bytes) -> int:
+    nchunks = data[6]
+    chunks = {}
+    for c in range(nchunks + 1):
+        e = 12 + 12 * c
+        chunks[data[e:e + 4]] = struct.unpack(">Q", data[e + 4:e + 12])[0]
+    f = chunks[b"OIDF"]
+    return struct.unpack(">L", data[f + 1020:f + 1024])[0]
